@@ -36,6 +36,16 @@ class InitError(Exception):
     pass
 
 
+class NotARequest(Exception):
+    """raised by the harness worker code when something that is not a request value (an exception object, an end marker, a
+    RemoteException ...) is handed to call() or preprocess(): user code must never see those"""
+
+
+def _strict(v):
+    if isinstance(v, bool) or not isinstance(v, (int, list, tuple)):
+        raise NotARequest(type(v).__name__)
+
+
 def _mk_exc(kind, tag, detail):
     t = EXC_TYPES[kind]
     if kind == 'ExcC':
@@ -79,6 +89,8 @@ def worker_classes():
             if self.batch_size:
                 xs = list(x)
                 LOG.append((self.tag, self.worker_index, xs, s.now if s else 0.0))
+                for v in xs:
+                    _strict(v)
                 roots = [root(v) for v in xs]
                 d = 0
                 if self.delays:
@@ -89,6 +101,7 @@ def worker_classes():
                     raise _mk_exc(self.fail['exc'], self.tag, roots)
                 return [[self.tag, v] for v in xs]
             LOG.append((self.tag, self.worker_index, x, s.now if s else 0.0))
+            _strict(x)
             r = root(x)
             if self.delays:
                 d = self.delays[r % len(self.delays)]
@@ -100,6 +113,7 @@ def worker_classes():
 
     class TagWorkerPre(TagWorker):
         def preprocess(self, x):
+            _strict(x)
             r = root(x)
             if self.pre_fail and r in self.pre_fail['xs']:
                 raise _mk_exc(self.pre_fail['exc'], self.tag + '.pre', [r])
@@ -646,6 +660,8 @@ def gen_leaf(rng, tag, proc_ok=False, batch_ok=True):
             lf['w'] = rng.choice([0, 0.005, 0.005])
     if rng.random() < 0.1:
         lf['stream_threads'] = 2
+    if rng.random() < 0.3:
+        lf['pre'] = True  # a preprocess method that accepts everything (values failed upstream must still bypass it)
     return lf
 
 
